@@ -8,11 +8,24 @@
 // other end of each connection: the certificate it sees (tls.peer.cert.subject.cn)
 // and whether the subject trusts an observer whose issuer discriminates
 // between the trust stores.
+//
+// Beyond the client-side subject: server-side subjects (a kept server socket made at one
+// point of the history, connections accepted from it at later points, with or without
+// xcm_accept_a overrides), a second network namespace with the <item>_<ns>.pem naming
+// (entered and left with setns(2) by the calling thread), and CRL material
+// (tls.check_crl with crl.pem / tls.crl_file / tls.crl) that does or does not revoke the observer.
 #include "vf.h"
 #include "xpair.h"
 
 #include <algorithm>
+#include <cstring>
+#include <functional>
+#include <thread>
+#include <dirent.h>
 #include <fcntl.h>
+#include <sched.h>
+#include <signal.h>
+#include <sys/file.h>
 #include <openssl/ssl.h>
 #include <openssl/crypto.h>
 #include <sys/stat.h>
@@ -37,6 +50,8 @@ struct Sets {
     pki::CertP obs_root[2], obs_leaf[2]; // two observer identities: issuer 0 / issuer 1
     std::string all_roots;
     std::string cert[NSETS], key[NSETS], tc[NSETS];
+    pki::CertP rsa_leaf;  // same issuer as set 0, RSA key: material of another key algorithm
+    std::string crl[2];   // CRLs of both observer issuers: [0] revokes nobody, [1] revokes both observer leaves
     void init()
     {
         for (int j = 0; j < 2; j++) {
@@ -56,14 +71,42 @@ struct Sets {
             key[i] = pad(leaf[i]->key_pem);
             tc[i] = pad(obs_root[i % 2]->cert_pem); // set i trusts observer issuer i%2 only
         }
+        pki::CertSpec rl; rl.cn = "set-rsa"; rl.rsa = true;
+        rsa_leaf = pki::make_cert(rl, root[0].get());
+        for (int v = 0; v < 2; v++) {
+            for (int j = 0; j < 2; j++) {
+                std::vector<long> rev;
+                if (v) rev.push_back(obs_leaf[j]->serial);
+                crl[v] += pki::make_crl(*obs_root[j], rev);
+            }
+            if (crl[v].size() < PAD) crl[v].append(PAD - crl[v].size(), '\n');
+        }
     }
 };
 Sets g_s;
+
+// where one credential item of a socket comes from
+struct Src {
+    int how = 0;     // 0 default lookup, 1 *_file attribute, 2 by value
+    int env_dir = 0; // how 0: XCM_TLS_CERT as it stood at the creating call (0..2 d0..d2, 3 the link, 4 the k8s directory)
+    int dir = 0;     // how 1: directory the attribute points into
+    int slot = 0;    // file naming: 0 "<item>.pem", 1 "<item>_<ns>.pem" (how 0: the namespace of the creating call)
+    int val = 0;     // how 2: set (cert, tc) or CRL variant
+};
+struct Desig { Src cert, tc, crl; bool check_crl = false; };
 
 struct Conn {
     Ep subj, obs;
     int cert_set = -1; // which leaf the subject was told to present
     int tc_set = -1;
+    bool alive = false;
+};
+
+struct Srv {
+    Ep ep;
+    std::string addr;
+    Desig dg;
+    int ns = 0;
     bool alive = false;
 };
 
@@ -81,9 +124,56 @@ public:
     size_t step_len() override { return 6; }
     size_t max_steps() override { return 40; }
     std::string base;
-    Ep observer[2]; // kept-alive observer servers (issuer 0 / 1), trusting every set's root
-    std::string obs_addr[2];
+    Ep observer[2][2]; // [namespace][issuer]: kept-alive observer servers, trusting every set's root
+    std::string obs_addr[2][2];
     int ncase = 0;
+
+    // ---- a second, named network namespace (iproute2 convention: an entry in /run/netns)
+    bool ns_ok = false;
+    std::string ns_name;
+    int ns_fd[2] = {-1, -1};
+    int cur_ns = 0;
+
+    void ns_setup()
+    {
+        if (getenv("VF_C18_NO_NETNS")) return;
+        ns_name = "vf18-" + std::to_string((long)getpid());
+        int lock = open("/run/.vf18-netns.lock", O_CREAT | O_RDWR, 0600);
+        if (lock >= 0) flock(lock, LOCK_EX);
+        // namespaces left behind by harness processes that were killed
+        if (DIR *d = opendir("/run/netns")) {
+            std::vector<std::string> stale;
+            while (struct dirent *e = readdir(d)) {
+                if (strncmp(e->d_name, "vf18-", 5) != 0) continue;
+                long pid = atol(e->d_name + 5);
+                if (pid > 0 && kill((pid_t)pid, 0) < 0 && errno == ESRCH) stale.push_back(e->d_name);
+            }
+            closedir(d);
+            for (auto &n : stale) { std::string cmd = "ip netns del " + n + " >/dev/null 2>&1"; if (system(cmd.c_str()) != 0) {} }
+        }
+        std::string cmd = "ip netns add " + ns_name + " >/dev/null 2>&1 && ip -n " + ns_name + " link set lo up >/dev/null 2>&1";
+        bool made = system(cmd.c_str()) == 0;
+        if (lock >= 0) { flock(lock, LOCK_UN); close(lock); }
+        if (!made) return;
+        ns_fd[0] = open("/proc/self/ns/net", O_RDONLY | O_CLOEXEC);
+        ns_fd[1] = open(("/run/netns/" + ns_name).c_str(), O_RDONLY | O_CLOEXEC);
+        if (ns_fd[0] < 0 || ns_fd[1] < 0) return;
+        if (setns(ns_fd[1], CLONE_NEWNET) < 0) return;
+        if (setns(ns_fd[0], CLONE_NEWNET) < 0) return;
+        ns_ok = true;
+    }
+    void enter(int ns)
+    {
+        if (!ns_ok || ns == cur_ns) return;
+        if (setns(ns_fd[ns], CLONE_NEWNET) == 0) cur_ns = ns;
+    }
+    void teardown() override
+    {
+        enter(0);
+        if (ns_name.empty()) return;
+        std::string cmd = "ip netns del " + ns_name + " >/dev/null 2>&1";
+        if (system(cmd.c_str()) != 0) {}
+    }
 
     void setup() override
     {
@@ -92,26 +182,37 @@ public:
         g_s.init();
         base = tmpdir() + "/c18";
         mkdir(base.c_str(), 0755);
-        for (int j = 0; j < 2; j++) {
-            observer[j].tag = 40 + j;
-            struct xcm_attr_map *m = xcm_attr_map_create();
-            xcm_attr_map_add_bool(m, "xcm.blocking", false);
-            xcm_attr_map_add_bin(m, "tls.cert", g_s.obs_leaf[j]->cert_pem.data(), g_s.obs_leaf[j]->cert_pem.size());
-            xcm_attr_map_add_bin(m, "tls.key", g_s.obs_leaf[j]->key_pem.data(), g_s.obs_leaf[j]->key_pem.size());
-            xcm_attr_map_add_bin(m, "tls.tc", g_s.all_roots.data(), g_s.all_roots.size());
-            observer[j].s = call(observer[j], [&] { return xcm_server_a("tls:127.0.0.1:0", m); });
-            xcm_attr_map_destroy(m);
-            if (observer[j].s) {
-                observer[j].closed = false;
-                const char *la = call(observer[j], [&] { return xcm_local_addr(observer[j].s); });
-                obs_addr[j] = la ? la : "";
+        ns_setup();
+        for (int ns = 0; ns < (ns_ok ? 2 : 1); ns++) {
+            enter(ns);
+            for (int j = 0; j < 2; j++) {
+                Ep &ob = observer[ns][j];
+                ob.tag = 40 + 2 * ns + j;
+                struct xcm_attr_map *m = xcm_attr_map_create();
+                xcm_attr_map_add_bool(m, "xcm.blocking", false);
+                xcm_attr_map_add_bin(m, "tls.cert", g_s.obs_leaf[j]->cert_pem.data(), g_s.obs_leaf[j]->cert_pem.size());
+                xcm_attr_map_add_bin(m, "tls.key", g_s.obs_leaf[j]->key_pem.data(), g_s.obs_leaf[j]->key_pem.size());
+                xcm_attr_map_add_bin(m, "tls.tc", g_s.all_roots.data(), g_s.all_roots.size());
+                ob.s = call(ob, [&] { return xcm_server_a("tls:127.0.0.1:0", m); });
+                xcm_attr_map_destroy(m);
+                if (ob.s) {
+                    ob.closed = false;
+                    const char *la = call(ob, [&] { return xcm_local_addr(ob.s); });
+                    obs_addr[ns][j] = la ? la : "";
+                }
             }
         }
+        enter(0);
     }
 
-    // ---- the file system model: what each (dir, file) currently designates
-    struct Dir { std::string path; int cert = -1, key = -1, tc = -1; bool is_link = false; int last_how = 0; };
+    // ---- the file system model: what each (dir, naming slot, file) currently designates
+    struct Dir { std::string path; int cert[2] = {-1, -1}, key[2] = {-1, -1}, tc[2] = {-1, -1}, crl[2] = {0, 0}; int last_how[2] = {0, 0}; };
     std::vector<Dir> dirs;
+    int link_to = 0;
+    int env_dir = 0; // 0..2 = d0..d2, 3 = the link, 4 = the k8s directory, 5 = the prelude directory
+    std::string link, kdir;
+
+    std::string fname(const char *item, int slot) { return slot ? std::string(item) + "_" + (ns_name.empty() ? "vf18-none" : ns_name) + ".pem" : std::string(item) + ".pem"; }
 
     void write_atomic(const std::string &path, const std::string &content)
     {
@@ -144,24 +245,98 @@ public:
             }
         }
     }
-    void put_set(Dir &d, int set, int how)
+    void put_set(Dir &d, int slot, int set, int crlv, int how)
     {
         // how: 0 fresh inodes (rename over), 1 rewrite in place, 2 rewrite in place and restore mtime
-        auto w = [&](const char *f, const std::string &content) {
-            std::string p = d.path + "/" + f;
+        auto w = [&](const char *item, const std::string &content) {
+            std::string p = d.path + "/" + fname(item, slot);
             if (how == 0) write_atomic(p, content); else write_in_place(p, content, how == 2);
         };
-        w("cert.pem", g_s.cert[set]);
-        w("key.pem", g_s.key[set]);
-        w("tc.pem", g_s.tc[set]);
-        d.cert = d.key = d.tc = set;
-        d.last_how = how;
+        w("cert", g_s.cert[set]);
+        w("key", g_s.key[set]);
+        w("tc", g_s.tc[set]);
+        w("crl", g_s.crl[crlv]);
+        d.cert[slot] = d.key[slot] = d.tc[slot] = set;
+        d.crl[slot] = crlv;
+        d.last_how[slot] = how;
     }
 
+    // ---- the designation model
+    Dir &dir_of(const Src &s) { return s.how == 0 ? (s.env_dir == 5 ? dirs[3] : s.env_dir >= 3 ? dirs[link_to] : dirs[s.env_dir]) : dirs[s.dir]; }
+    int cert_now(const Src &s) { return s.how == 2 ? s.val : dir_of(s).cert[s.slot]; }
+    int tc_now(const Src &s) { return s.how == 2 ? s.val : dir_of(s).tc[s.slot]; }
+    int crl_now(const Src &s) { return s.how == 2 ? s.val : dir_of(s).crl[s.slot]; }
+    std::string env_path() { return env_dir == 5 ? dirs[3].path : env_dir == 4 ? kdir : env_dir == 3 ? link : dirs[env_dir].path; }
+    Dir &env_model() { return env_dir == 5 ? dirs[3] : env_dir >= 3 ? dirs[link_to] : dirs[env_dir]; }
+
+    // per item: 0 default lookup, 1 attribute by file, 2 attribute by value
+    Desig decode(uint32_t a, uint32_t b, uint32_t x, uint32_t y, uint32_t z)
+    {
+        Desig g;
+        int attr_dir = b % 3, attr_slot = (z >> 3) % 2;
+        g.cert.how = a % 3; g.tc.how = (a / 3) % 3;
+        g.check_crl = (z >> 4) % 2;
+        g.crl.how = (z >> 5) % 3;
+        for (Src *s : {&g.cert, &g.tc, &g.crl}) { s->env_dir = env_dir; s->dir = attr_dir; s->slot = s->how == 0 ? cur_ns : attr_slot; }
+        g.cert.val = x % NSETS;
+        g.tc.val = y % NSETS;
+        g.crl.val = (z >> 7) % 2;
+        return g;
+    }
+    std::string apply(struct xcm_attr_map *m, const Desig &g)
+    {
+        std::string desc;
+        auto where = [&](const Src &s) { return "d" + std::to_string(s.dir) + (s.slot ? " (<item>_<ns>.pem names)" : ""); };
+        // certificate and key always travel together
+        if (g.cert.how == 0) desc += "cert/key from the environment directory; ";
+        else if (g.cert.how == 1) {
+            xcm_attr_map_add_str(m, "tls.cert_file", (dirs[g.cert.dir].path + "/" + fname("cert", g.cert.slot)).c_str());
+            xcm_attr_map_add_str(m, "tls.key_file", (dirs[g.cert.dir].path + "/" + fname("key", g.cert.slot)).c_str());
+            desc += "tls.cert_file/key_file in " + where(g.cert) + "; ";
+        } else {
+            xcm_attr_map_add_bin(m, "tls.cert", g_s.cert[g.cert.val].data(), g_s.cert[g.cert.val].size());
+            xcm_attr_map_add_bin(m, "tls.key", g_s.key[g.cert.val].data(), g_s.key[g.cert.val].size());
+            desc += "tls.cert/key by value (set-" + std::to_string(g.cert.val) + "); ";
+        }
+        if (g.tc.how == 0) desc += "tc from the environment directory";
+        else if (g.tc.how == 1) { xcm_attr_map_add_str(m, "tls.tc_file", (dirs[g.tc.dir].path + "/" + fname("tc", g.tc.slot)).c_str()); desc += "tls.tc_file in " + where(g.tc); }
+        else { xcm_attr_map_add_bin(m, "tls.tc", g_s.tc[g.tc.val].data(), g_s.tc[g.tc.val].size()); desc += "tls.tc by value (set-" + std::to_string(g.tc.val) + ")"; }
+        if (g.check_crl) {
+            xcm_attr_map_add_bool(m, "tls.check_crl", true);
+            if (g.crl.how == 0) desc += "; tls.check_crl, CRL from the environment directory";
+            else if (g.crl.how == 1) { xcm_attr_map_add_str(m, "tls.crl_file", (dirs[g.crl.dir].path + "/" + fname("crl", g.crl.slot)).c_str()); desc += "; tls.check_crl, tls.crl_file in " + where(g.crl); }
+            else { xcm_attr_map_add_bin(m, "tls.crl", g_s.crl[g.crl.val].data(), g_s.crl[g.crl.val].size()); desc += "; tls.check_crl, tls.crl by value"; }
+        }
+        static const char *HOWN[] = {"rename-over (fresh inodes)", "in-place rewrite", "in-place rewrite preserving size and mtime"};
+        desc += "; files last changed by:";
+        bool env_used = g.cert.how == 0 || g.tc.how == 0 || (g.check_crl && g.crl.how == 0);
+        bool attr_used = g.cert.how == 1 || g.tc.how == 1 || (g.check_crl && g.crl.how == 1);
+        if (env_used) desc += std::string(" env dir ") + HOWN[dir_of(g.cert.how == 0 ? g.cert : g.tc.how == 0 ? g.tc : g.crl).last_how[cur_ns]];
+        if (attr_used) { const Src &s = g.cert.how == 1 ? g.cert : g.tc.how == 1 ? g.tc : g.crl; desc += std::string(" attribute dir ") + HOWN[dirs[s.dir].last_how[s.slot]]; }
+        if (env_used && cur_ns) desc += "; calling thread in namespace " + ns_name;
+        return desc;
+    }
+
+    std::vector<Srv> servers;
+
+    // The whole history runs in a thread of its own, not the process's main thread: the namespace
+    // that counts is the calling thread's (setns(2) moves one thread), which for the main thread
+    // alone would coincide with what /proc/self reports.
     Outcome run(const Plan &p, Case &c) override
     {
+        Outcome o = Outcome::pass();
+        std::thread t([&] { cur_ns = 0; o = run_in_thread(p, c); enter(0); });
+        t.join();
+        cur_ns = 0;
+        return o;
+    }
+
+    Outcome run_in_thread(const Plan &p, Case &c)
+    {
         sh_reset();
-        VF_CHECK(observer[0].s && observer[1].s, "setup: observers");
+        enter(0);
+        VF_CHECK(observer[0][0].s && observer[0][1].s, "setup: observers");
+        if (ns_ok) VF_CHECK(observer[1][0].s && observer[1][1].s, "setup: observers in the second namespace");
         ncase++;
         std::string root = base + "/case" + std::to_string(ncase % 4);
         std::string cmd = "rm -rf " + root;
@@ -170,51 +345,69 @@ public:
         dirs.clear();
         for (int i = 0; i < 3; i++) { Dir d; d.path = root + "/d" + std::to_string(i); mkdir(d.path.c_str(), 0755); dirs.push_back(d); }
         // d2 is reached through a symbolic link "cur" that is flipped between d0 and d1
-        std::string link = root + "/cur";
-        int link_to = 0;
+        link = root + "/cur";
+        link_to = 0;
         if (symlink("d0", link.c_str()) < 0) {}
         // a directory whose files are symbolic links reaching through the flipping link (the way
         // orchestrators publish secrets): the links never change, what they resolve to does
-        std::string kdir = root + "/k8s";
+        kdir = root + "/k8s";
         mkdir(kdir.c_str(), 0755);
-        for (const char *f : {"cert.pem", "key.pem", "tc.pem"}) { std::string t = std::string("../cur/") + f; if (symlink(t.c_str(), (kdir + "/" + f).c_str()) < 0) {} }
+        for (int slot = 0; slot < 2; slot++)
+            for (const char *item : {"cert", "key", "tc", "crl"}) { std::string f = fname(item, slot), t = "../cur/" + f; if (symlink(t.c_str(), (kdir + "/" + f).c_str()) < 0) {} }
         Dec cfg(p.cfg);
-        int env_dir = 0; // 0..2 = d0..d2, 3 = the link
-        put_set(dirs[0], (int)cfg.ch(NSETS), 0);
-        put_set(dirs[1], (int)cfg.ch(NSETS), 0);
-        put_set(dirs[2], (int)cfg.ch(NSETS), 0);
-        auto env_path = [&]() { return env_dir == 4 ? kdir : env_dir == 3 ? link : dirs[env_dir].path; };
-        auto env_model = [&]() -> Dir & { return env_dir >= 3 ? dirs[link_to] : dirs[env_dir]; };
-        setenv("XCM_TLS_CERT", env_path().c_str(), 1);
+        env_dir = 0;
+        uint32_t s0[3];
+        for (int i = 0; i < 3; i++) s0[i] = cfg.ch(NSETS);
+        for (int i = 0; i < 3; i++) {
+            uint32_t w = cfg.raw();
+            put_set(dirs[i], 0, (int)s0[i], (int)((w >> 8) % 2), 0);
+            put_set(dirs[i], 1, (int)(w % NSETS), (int)((w >> 9) % 2), 0);
+        }
         long ctx0 = g_ctx_live;
-        size_t heap0 = __sanitizer_get_current_allocated_bytes ? __sanitizer_get_current_allocated_bytes() : 0;
-        (void)heap0;
         std::vector<Conn> conns;
-        struct Guard { std::vector<Conn> &v; ~Guard() { for (auto &x : v) { x_close(x.subj); x_close(x.obs); } } } guard{conns};
+        servers.clear();
+        struct Guard {
+            C18 &h; std::vector<Conn> &v;
+            ~Guard() { for (auto &x : v) { x_close(x.subj); x_close(x.obs); } for (auto &sv : h.servers) x_close(sv.ep); h.servers.clear(); h.enter(0); }
+        } guard{*this, conns};
         Outcome o = Outcome::pass();
         bool nt = false;
         int updates_since_create = 0;
-        // every history starts with one connection made entirely from the environment directory as it
-        // stands (so that anything XCM may remember from a first use is part of the history itself)
-        o = create(c, conns, env_model(), 0, 0, 0, (uint32_t)((env_model().tc % 2) << 8));
+        // Prelude, the same in every case and in every replay: one default-lookup connection with
+        // XCM_TLS_CERT naming a directory of its own, made and closed.  Whatever the library may
+        // remember from a first use in the process (a directory, a name, a context) is thereby part
+        // of every single history, and a failure caused by it reproduces from the plan alone.
+        {
+            Dir pd; pd.path = root + "/prelude"; mkdir(pd.path.c_str(), 0755); dirs.push_back(pd);
+            put_set(dirs[3], 0, NSETS - 1, 0, 0);
+            put_set(dirs[3], 1, NSETS - 1, 0, 0);
+            env_dir = 5;
+            setenv("XCM_TLS_CERT", env_path().c_str(), 1);
+            o = create(c, conns, 0, 0, 0, (uint32_t)((env_model().tc[0] % 2) << 8), 0);
+            for (auto &cn : conns) { x_close(cn.subj); x_close(cn.obs); cn.alive = false; }
+            env_dir = 0;
+            setenv("XCM_TLS_CERT", env_path().c_str(), 1);
+        }
+        // the history proper starts with one connection made entirely from the environment directory
+        if (o.ok) o = create(c, conns, 0, 0, 0, (uint32_t)((env_model().tc[0] % 2) << 8), 0);
         size_t stepno = 0;
         for (auto &st : p.steps) {
             if (!o.ok) break;
             stepno++;
             Dec d(st);
             uint32_t k = d.ch(100);
-            uint32_t a = d.raw(), b = d.raw(), x = d.raw(), y = d.raw();
+            uint32_t a = d.raw(), b = d.raw(), x = d.raw(), y = d.raw(), z = d.raw();
             if (k < 14) { // new material with fresh inodes
-                int di = a % 3, set = b % NSETS;
-                put_set(dirs[di], set, 0);
-                c.log("write set-%d into d%d (rename over)", set, di);
+                int di = a % 3, set = b % NSETS, slot = z % 2, crlv = (z >> 1) % 2;
+                put_set(dirs[di], slot, set, crlv, 0);
+                c.log("write set-%d (CRL variant %d) into d%d%s (rename over)", set, crlv, di, slot ? " under the <item>_<ns>.pem names" : "");
                 updates_since_create++;
             } else if (k < 26) { // rewrite in place (same inode, same size)
-                int di = a % 3, set = b % NSETS;
+                int di = a % 3, set = b % NSETS, slot = z % 2, crlv = (z >> 1) % 2;
                 bool keep = x % 4 == 0;
                 if (keep && excluded("credential-file-rewritten-with-identical-metadata")) { keep = false; count_exclusion("credential-file-rewritten-with-identical-metadata"); }
-                put_set(dirs[di], set, keep ? 2 : 1);
-                c.log("rewrite d%d in place with set-%d (same size%s)", di, set, keep ? ", mtime restored" : "");
+                put_set(dirs[di], slot, set, crlv, keep ? 2 : 1);
+                c.log("rewrite d%d%s in place with set-%d, CRL variant %d (same size%s)", di, slot ? " (<item>_<ns>.pem names)" : "", set, crlv, keep ? ", mtime restored" : "");
                 c.cls(keep ? "rewrite-in-place-same-size-same-mtime" : "rewrite-in-place-same-size");
                 updates_since_create++;
             } else if (k < 32) { // flip the link
@@ -224,20 +417,28 @@ public:
                 c.log("symlink cur -> d%d", link_to);
                 c.cls("symlink-flip");
                 updates_since_create++;
-            } else if (k < 40) { // switch directory through the environment
-                env_dir = a % 5;
-                setenv("XCM_TLS_CERT", env_path().c_str(), 1);
-                c.log("XCM_TLS_CERT=%s", env_dir == 4 ? "k8s (file links through cur)" : env_dir == 3 ? "cur (link)" : ("d" + std::to_string(env_dir)).c_str());
-                if (env_dir == 4) c.cls("file-symlinks-through-flipping-directory-link");
+            } else if (k < 40) {
+                if (ns_ok && z % 2 == 1) { // the calling thread moves to the other network namespace
+                    enter(1 - cur_ns);
+                    c.log("setns: the thread is now in %s", cur_ns ? ("namespace " + ns_name).c_str() : "the unnamed initial namespace");
+                    c.cls("namespace-switch");
+                } else { // switch directory through the environment
+                    env_dir = a % 5;
+                    setenv("XCM_TLS_CERT", env_path().c_str(), 1);
+                    c.log("XCM_TLS_CERT=%s", env_dir == 4 ? "k8s (file links through cur)" : env_dir == 3 ? "cur (link)" : ("d" + std::to_string(env_dir)).c_str());
+                    if (env_dir == 4) c.cls("file-symlinks-through-flipping-directory-link");
+                }
                 updates_since_create++;
             } else if (k < 44) {
                 o = split_pair(c, conns, a);
                 nt = true;
-            } else if (k < 72) { // create a connection whose client side is the subject
+            } else if (k < 72) { // create a connection
                 bool live_older = false;
                 for (auto &cn : conns) live_older |= cn.alive;
+                for (auto &sv : servers) live_older |= sv.alive;
                 if (live_older && updates_since_create > 0) { nt = true; c.cls("creation-after-update-with-older-socket-alive"); }
-                o = create(c, conns, env_model(), a, b, x, y);
+                if ((z >> 2) % 2) o = create_server_side(c, conns, a, b, x, y, z);
+                else o = create(c, conns, a, b, x, y, z);
                 updates_since_create = 0;
             } else if (k < 86) { // probe an established connection: still works, identity unchanged
                 if (conns.empty()) continue;
@@ -252,15 +453,22 @@ public:
                 std::string cn_now = subject_cn(cn.obs);
                 VF_CHECK(cn_now == "set-" + std::to_string(cn.cert_set), "C18: the peer identity of an established connection changed from set-%d to %s", cn.cert_set, cn_now.c_str());
             } else if (k < 96) {
+                if (z % 4 == 3 && !servers.empty()) {
+                    Srv &sv = servers[a % servers.size()];
+                    if (sv.alive) { x_close(sv.ep); sv.alive = false; c.log("close a kept server socket"); }
+                    continue;
+                }
                 if (conns.empty()) continue;
                 Conn &cn = conns[a % conns.size()];
                 if (cn.alive) { x_close(cn.subj); x_close(cn.obs); cn.alive = false; c.log("close a connection (set-%d)", cn.cert_set); }
             } else { // broken material in the environment directory
-                o = broken(c, env_model(), env_model().path, a); // the real directory behind any links
+                o = broken(c, env_model(), env_model().path, a, z); // the real directory behind any links
             }
         }
         // ---- everything closed: cached contexts are released
         for (auto &cn : conns) { x_close(cn.subj); x_close(cn.obs); cn.alive = false; }
+        for (auto &sv : servers) { x_close(sv.ep); sv.alive = false; }
+        enter(0);
         if (o.ok) VF_CHECK(g_ctx_live == ctx0, "C18: %ld TLS context(s) are still alive after the last socket using them was closed", g_ctx_live - ctx0);
         c.nt(nt);
         return o;
@@ -268,14 +476,15 @@ public:
 
     void drain_observers()
     {
-        for (int j = 0; j < 2; j++)
-            for (int i = 0; i < 16; i++) {
-                sh_enter(99, 1);
-                struct xcm_socket *x = xcm_accept(observer[j].s);
-                if (x) xcm_close(x);
-                sh_leave();
-                if (!x) break;
-            }
+        for (int ns = 0; ns < 2; ns++)
+            for (int j = 0; j < 2; j++)
+                for (int i = 0; i < 16 && observer[ns][j].s; i++) {
+                    sh_enter(99, 1);
+                    struct xcm_socket *x = xcm_accept(observer[ns][j].s);
+                    if (x) xcm_close(x);
+                    sh_leave();
+                    if (!x) break;
+                }
     }
 
     // Two by-value configurations whose cert|key|tc texts concatenate to the same bytes but split
@@ -299,7 +508,7 @@ public:
             conns.push_back(Conn());
             Conn &cn = conns.back();
             cn.subj.tag = 2; cn.obs.tag = 3;
-            cn.subj.s = call(cn.subj, [&] { return xcm_connect_a(obs_addr[oj].c_str(), m); });
+            cn.subj.s = call(cn.subj, [&] { return xcm_connect_a(obs_addr[cur_ns][oj].c_str(), m); });
             int e = errno;
             xcm_attr_map_destroy(m);
             VF_CHECK(cn.subj.s != nullptr, "C18: by-value configuration %c refused: %s", which ? 'Y' : 'X', errname(e));
@@ -307,7 +516,7 @@ public:
             bool s_ready = false, o_ready = false;
             int s_err = 0;
             for (int i = 0; i < 4000; i++) {
-                if (!cn.obs.s) { sh_enter(cn.obs.tag, 1); cn.obs.s = xcm_accept(observer[oj].s); sh_leave(); if (cn.obs.s) cn.obs.closed = false; }
+                if (!cn.obs.s) { sh_enter(cn.obs.tag, 1); cn.obs.s = xcm_accept(observer[cur_ns][oj].s); sh_leave(); if (cn.obs.s) cn.obs.closed = false; }
                 if (!s_ready && !s_err) { int rc = x_finish(cn.subj); if (rc == 0) s_ready = true; else if (errno != EAGAIN) s_err = errno; }
                 if (cn.obs.s && !o_ready) { int rc = x_finish(cn.obs); if (rc == 0) o_ready = true; else if (errno != EAGAIN) break; }
                 if ((s_ready && o_ready) || s_err) break;
@@ -324,73 +533,21 @@ public:
         return Outcome::pass();
     }
 
-    // designate material for a new client-side subject and check what it uses
-    Outcome create(Case &c, std::vector<Conn> &conns, Dir &envd, uint32_t a, uint32_t b, uint32_t x, uint32_t y)
+    // drive a fresh subject/observer pair to a verdict and judge it against what was designated
+    Outcome drive_and_judge(Case &c, Conn &cn, const std::function<void()> &try_accept, int want_cert, int want_tc, bool check_crl, int want_crl, int oj, const std::string &desc)
     {
-        // per item: 0 from the environment directory, 1 attribute by file, 2 attribute by value
-        int how_cert = a % 3, how_tc = (a / 3) % 3;
-        int attr_dir = b % 3;          // directory the *_file attributes point into
-        int val_set = x % NSETS;       // set used for by-value attributes
-        Dir &ad = dirs[attr_dir];
-        int want_cert, want_tc;
-        struct xcm_attr_map *m = xcm_attr_map_create();
-        xcm_attr_map_add_bool(m, "xcm.blocking", false);
-        std::string desc;
-        // certificate and key always travel together
-        if (how_cert == 0) { want_cert = envd.cert; desc += "cert/key from the environment directory; "; }
-        else if (how_cert == 1) {
-            xcm_attr_map_add_str(m, "tls.cert_file", (ad.path + "/cert.pem").c_str());
-            xcm_attr_map_add_str(m, "tls.key_file", (ad.path + "/key.pem").c_str());
-            want_cert = ad.cert;
-            desc += "tls.cert_file/key_file in d" + std::to_string(attr_dir) + "; ";
-        } else {
-            xcm_attr_map_add_bin(m, "tls.cert", g_s.cert[val_set].data(), g_s.cert[val_set].size());
-            // split variant: the key value carries a CA certificate after the key (PEM readers skip foreign blocks)
-            std::string kv = g_s.key[val_set];
-            xcm_attr_map_add_bin(m, "tls.key", kv.data(), kv.size());
-            want_cert = val_set;
-            desc += "tls.cert/key by value (set-" + std::to_string(val_set) + "); ";
-        }
-        if (how_tc == 0) { want_tc = envd.tc; desc += "tc from the environment directory"; }
-        else if (how_tc == 1) { xcm_attr_map_add_str(m, "tls.tc_file", (ad.path + "/tc.pem").c_str()); want_tc = ad.tc; desc += "tls.tc_file in d" + std::to_string(attr_dir); }
-        else { int ts = y % NSETS; xcm_attr_map_add_bin(m, "tls.tc", g_s.tc[ts].data(), g_s.tc[ts].size()); want_tc = ts; desc += "tls.tc by value (set-" + std::to_string(ts) + ")"; }
-        static const char *HOWN[] = {"rename-over (fresh inodes)", "in-place rewrite", "in-place rewrite preserving size and mtime"};
-        desc += "; files last changed by:";
-        if (how_cert == 0 || how_tc == 0) desc += std::string(" env dir ") + HOWN[envd.last_how];
-        if (how_cert == 1 || how_tc == 1) desc += std::string(" attribute dir ") + HOWN[ad.last_how];
-        // which observer do we talk to?  One whose issuer the designated trust store contains, or not
-        int oj = (y >> 8) % 2;
-        bool trusted = want_tc % 2 == oj;
-        drain_observers();
-        // registered at once, so that every exit path closes it (a leaked socket would keep its
-        // cached TLS context alive into the next case)
-        conns.push_back(Conn());
-        Conn &cn = conns.back();
-        cn.subj.tag = 2;
-        cn.obs.tag = 3;
-        std::string addr = obs_addr[oj];
-        errno = 0;
-        cn.subj.s = call(cn.subj, [&] { return xcm_connect_a(addr.c_str(), m); });
-        int e = errno;
-        xcm_attr_map_destroy(m);
-        c.log("connect: %s -> designated leaf set-%d, trust of set-%d; observer issuer %d (%s)", desc.c_str(), want_cert, want_tc, oj, trusted ? "trusted" : "not trusted");
-        VF_CHECK(cn.subj.s != nullptr, "C18: xcm_connect_a with well-formed designated material failed: %s (%s)", errname(e), desc.c_str());
-        cn.subj.closed = false;
-        // drive; the observer accepts
         bool s_ready = false, o_ready = false;
         int s_err = 0;
         for (int i = 0; i < 4000; i++) {
-            if (!cn.obs.s) {
-                sh_enter(cn.obs.tag, 1);
-                cn.obs.s = xcm_accept(observer[oj].s);
-                sh_leave();
-                if (cn.obs.s) cn.obs.closed = false;
-            }
-            if (!s_ready && !s_err) { int rc = x_finish(cn.subj); if (rc == 0) s_ready = true; else if (errno != EAGAIN) s_err = errno; }
+            try_accept();
+            if (cn.subj.s && !s_ready && !s_err) { int rc = x_finish(cn.subj); if (rc == 0) s_ready = true; else if (errno != EAGAIN) s_err = errno; }
             if (cn.obs.s && !o_ready) { int rc = x_finish(cn.obs); if (rc == 0) o_ready = true; else if (errno != EAGAIN) break; }
             if ((s_ready && o_ready) || s_err) break;
             usleep(150);
         }
+        bool trusted = want_tc % 2 == oj;
+        bool revoked = check_crl && want_crl == 1;
+        if (check_crl) c.cls(revoked ? "crl-check:observer-revoked" : "crl-check:observer-not-revoked");
         if (!trusted) {
             VF_CHECK(!s_ready, "C18: the designated trust store (set-%d: observer issuer %d only) does not contain the observer's issuer %d, yet the connection was established - trust material of another configuration is in use [%s]", want_tc, want_tc % 2, oj, desc.c_str());
             x_close(cn.subj);
@@ -398,7 +555,14 @@ public:
             c.cls("trust-probe:rejected");
             return Outcome::pass();
         }
-        VF_CHECK(s_ready && o_ready, "C18: the designated trust store (set-%d) contains the observer's issuer, yet the connection failed (%s) - trust material of another configuration is in use? [%s]", want_tc, s_err ? errname(s_err) : "timeout", desc.c_str());
+        if (revoked) {
+            VF_CHECK(!s_ready, "C18: the designated CRL revokes the observer's certificate, yet the connection was established - CRL material of another configuration is in use [%s]", desc.c_str());
+            x_close(cn.subj);
+            x_close(cn.obs);
+            return Outcome::pass();
+        }
+        VF_CHECK(s_ready && o_ready, "C18: the designated trust store (set-%d) contains the observer's issuer%s, yet the connection failed (%s) - trust material of another configuration is in use? [%s]", want_tc,
+                 check_crl ? " and the designated CRL does not revoke the observer" : "", s_err ? errname(s_err) : "timeout", desc.c_str());
         std::string seen = subject_cn(cn.obs);
         VF_CHECK(seen == "set-" + std::to_string(want_cert), "C18: the connection presents the certificate of '%s', the material designated at the time of the call is set-%d [%s]", seen.c_str(), want_cert, desc.c_str());
         cn.cert_set = want_cert;
@@ -408,41 +572,194 @@ public:
         return Outcome::pass();
     }
 
-    // unreadable / malformed / mismatching material fails with EPROTO
-    Outcome broken(Case &c, Dir &envd, const std::string &envpath, uint32_t a)
+    // designate material for a new client-side subject and check what it uses
+    Outcome create(Case &c, std::vector<Conn> &conns, uint32_t a, uint32_t b, uint32_t x, uint32_t y, uint32_t z)
     {
-        int kind = a % 7;
+        Desig g = decode(a, b, x, y, z);
+        struct xcm_attr_map *m = xcm_attr_map_create();
+        xcm_attr_map_add_bool(m, "xcm.blocking", false);
+        std::string desc = apply(m, g);
+        int want_cert = cert_now(g.cert), want_tc = tc_now(g.tc), want_crl = crl_now(g.crl);
+        // which observer do we talk to?  One whose issuer the designated trust store contains, or not
+        int oj = (y >> 8) % 2;
+        int ns = cur_ns;
+        if (ns && (g.cert.how == 0 || g.tc.how == 0 || (g.check_crl && g.crl.how == 0))) c.cls("default-lookup-in-named-namespace");
+        drain_observers();
+        // registered at once, so that every exit path closes it (a leaked socket would keep its
+        // cached TLS context alive into the next case)
+        conns.push_back(Conn());
+        Conn &cn = conns.back();
+        cn.subj.tag = 2;
+        cn.obs.tag = 3;
+        std::string addr = obs_addr[ns][oj];
+        errno = 0;
+        cn.subj.s = call(cn.subj, [&] { return xcm_connect_a(addr.c_str(), m); });
+        int e = errno;
+        xcm_attr_map_destroy(m);
+        c.log("connect: %s -> designated leaf set-%d, trust of set-%d%s; observer issuer %d (%s)", desc.c_str(), want_cert, want_tc, g.check_crl ? (want_crl ? ", CRL revoking the observer" : ", CRL revoking nobody") : "", oj,
+              want_tc % 2 == oj ? "trusted" : "not trusted");
+        VF_CHECK(cn.subj.s != nullptr, "C18: xcm_connect_a with well-formed designated material failed: %s (%s)", errname(e), desc.c_str());
+        cn.subj.closed = false;
+        auto try_accept = [&] {
+            if (cn.obs.s) return;
+            sh_enter(cn.obs.tag, 1);
+            cn.obs.s = xcm_accept(observer[ns][oj].s);
+            sh_leave();
+            if (cn.obs.s) cn.obs.closed = false;
+        };
+        return drive_and_judge(c, cn, try_accept, want_cert, want_tc, g.check_crl, want_crl, oj, desc);
+    }
+
+    // a server-side subject: the server socket is made now or was made earlier in the history; the
+    // connection accepted from it uses the files the server's designation names as they stand at the
+    // accept call, unless xcm_accept_a overrides an item
+    Outcome create_server_side(Case &c, std::vector<Conn> &conns, uint32_t a, uint32_t b, uint32_t x, uint32_t y, uint32_t z)
+    {
+        c.cls("server-side-subject");
+        std::vector<size_t> alive;
+        for (size_t i = 0; i < servers.size(); i++) if (servers[i].alive) alive.push_back(i);
+        bool reuse = (z >> 8) % 2 && !alive.empty();
+        size_t si;
+        if (!reuse) {
+            if (servers.size() >= 6) { if (alive.empty()) return Outcome::pass(); reuse = true; }
+        }
+        if (!reuse) {
+            Srv nsrv;
+            nsrv.dg = decode(a, b, x, y, z);
+            nsrv.ns = cur_ns;
+            nsrv.ep.tag = 4;
+            struct xcm_attr_map *m = xcm_attr_map_create();
+            xcm_attr_map_add_bool(m, "xcm.blocking", false);
+            std::string desc = apply(m, nsrv.dg);
+            errno = 0;
+            nsrv.ep.s = call(nsrv.ep, [&] { return xcm_server_a("tls:127.0.0.1:0", m); });
+            int e = errno;
+            xcm_attr_map_destroy(m);
+            c.log("server: %s", desc.c_str());
+            VF_CHECK(nsrv.ep.s != nullptr, "C18: xcm_server_a with well-formed designated material failed: %s (%s)", errname(e), desc.c_str());
+            nsrv.ep.closed = false;
+            const char *la = call(nsrv.ep, [&] { return xcm_local_addr(nsrv.ep.s); });
+            nsrv.addr = la ? la : "";
+            nsrv.alive = true;
+            if (cur_ns && (nsrv.dg.cert.how == 0 || nsrv.dg.tc.how == 0)) c.cls("default-lookup-in-named-namespace");
+            servers.push_back(std::move(nsrv));
+            si = servers.size() - 1;
+        } else {
+            si = alive[(z >> 9) % alive.size()];
+            c.cls("accept-from-server-made-earlier");
+        }
+        Srv &sv = servers[si];
+        // what the accepted connection is designated to use, now
+        Desig g = sv.dg;
+        int ov = (z >> 12) % 4;
+        struct xcm_attr_map *am = xcm_attr_map_create();
+        std::string ovdesc = "no xcm_accept_a override";
+        if (ov == 1) {
+            Src s; s.how = 1; s.dir = (z >> 14) % 3; s.slot = (z >> 16) % 2;
+            g.cert = s;
+            xcm_attr_map_add_str(am, "tls.cert_file", (dirs[s.dir].path + "/" + fname("cert", s.slot)).c_str());
+            xcm_attr_map_add_str(am, "tls.key_file", (dirs[s.dir].path + "/" + fname("key", s.slot)).c_str());
+            ovdesc = "xcm_accept_a overrides tls.cert_file/key_file (d" + std::to_string(s.dir) + ")";
+            c.cls("accept-override:cert-by-file");
+        } else if (ov == 2) {
+            Src s; s.how = 2; s.val = (z >> 14) % NSETS;
+            g.tc = s;
+            xcm_attr_map_add_bin(am, "tls.tc", g_s.tc[s.val].data(), g_s.tc[s.val].size());
+            ovdesc = "xcm_accept_a overrides tls.tc by value (set-" + std::to_string(s.val) + ")";
+            c.cls("accept-override:tc-by-value");
+        } else if (ov == 3) {
+            Src s; s.how = 2; s.val = (z >> 14) % NSETS;
+            g.cert = s;
+            xcm_attr_map_add_bin(am, "tls.cert", g_s.cert[s.val].data(), g_s.cert[s.val].size());
+            xcm_attr_map_add_bin(am, "tls.key", g_s.key[s.val].data(), g_s.key[s.val].size());
+            ovdesc = "xcm_accept_a overrides tls.cert/key by value (set-" + std::to_string(s.val) + ")";
+            c.cls("accept-override:cert-by-value");
+        }
+        int want_cert = cert_now(g.cert), want_tc = tc_now(g.tc), want_crl = crl_now(g.crl);
+        int oj = (y >> 8) % 2;
+        static const char *HOWS[] = {"default lookup", "by file", "by value"};
+        std::string desc = "accepted from a server designating cert/key " + std::string(HOWS[sv.dg.cert.how]) + ", tc " + HOWS[sv.dg.tc.how] + (sv.dg.check_crl ? std::string(", CRL ") + HOWS[sv.dg.crl.how] : "") +
+                           (reuse ? " (server made earlier in the history)" : "") + "; " + ovdesc;
+        c.log("accept: %s -> designated leaf set-%d, trust of set-%d%s; observer issuer %d (%s)", desc.c_str(), want_cert, want_tc, g.check_crl ? (want_crl ? ", CRL revoking the observer" : ", CRL revoking nobody") : "", oj,
+              want_tc % 2 == oj ? "trusted" : "not trusted");
+        conns.push_back(Conn());
+        Conn &cn = conns.back();
+        cn.subj.tag = 2;
+        cn.obs.tag = 3;
+        // the observer is a client presenting issuer oj's leaf and trusting every set's root
+        {
+            struct xcm_attr_map *m = xcm_attr_map_create();
+            xcm_attr_map_add_bool(m, "xcm.blocking", false);
+            xcm_attr_map_add_bin(m, "tls.cert", g_s.obs_leaf[oj]->cert_pem.data(), g_s.obs_leaf[oj]->cert_pem.size());
+            xcm_attr_map_add_bin(m, "tls.key", g_s.obs_leaf[oj]->key_pem.data(), g_s.obs_leaf[oj]->key_pem.size());
+            xcm_attr_map_add_bin(m, "tls.tc", g_s.all_roots.data(), g_s.all_roots.size());
+            int back = cur_ns;
+            enter(sv.ns); // the observer has to be in the listener's namespace to reach it
+            cn.obs.s = call(cn.obs, [&] { return xcm_connect_a(sv.addr.c_str(), m); });
+            int e = errno;
+            enter(back);
+            xcm_attr_map_destroy(m);
+            if (!cn.obs.s) { xcm_attr_map_destroy(am); return failf("harness: observer client could not be created: %s", errname(e)); }
+            cn.obs.closed = false;
+        }
+        int acc_err = 0;
+        auto try_accept = [&] {
+            if (cn.subj.s || acc_err) return;
+            sh_enter(cn.subj.tag, 1);
+            errno = 0;
+            cn.subj.s = xcm_accept_a(sv.ep.s, am);
+            int e = errno;
+            sh_leave();
+            if (cn.subj.s) cn.subj.closed = false;
+            else if (e != EAGAIN) acc_err = e;
+        };
+        Outcome o = drive_and_judge(c, cn, try_accept, want_cert, want_tc, g.check_crl, want_crl, oj, desc);
+        xcm_attr_map_destroy(am);
+        if (o.ok && acc_err) return failf("C18: xcm_accept_a with well-formed designated material failed: %s [%s]", errname(acc_err), desc.c_str());
+        return o;
+    }
+
+    // unreadable / malformed / mismatching material fails with EPROTO
+    Outcome broken(Case &c, Dir &envd, const std::string &envpath, uint32_t a, uint32_t z)
+    {
+        int kind = z % 8 >= 1 && z % 8 <= 3 ? 6 + (int)(z % 8) : (int)(a % 7);
         static const char *KN[] = {"certificate file missing", "certificate file is garbage", "key does not match the certificate", "certificate path is a directory", "trust file missing",
-                                   "trust bundle whose last entry is cut short", "trust bundle whose last entry is corrupt"};
-        std::string cert = envpath + "/cert.pem", key = envpath + "/key.pem", tc = envpath + "/tc.pem";
-        std::string saved_cert = pki::read_file(cert), saved_key = pki::read_file(key), saved_tc = pki::read_file(tc);
+                                   "trust bundle whose last entry is cut short", "trust bundle whose last entry is corrupt",
+                                   "key of another algorithm (RSA) than the certificate (EC)", "certificate of another algorithm (RSA) than the key (EC)", "CRL file is garbage while tls.check_crl is set"};
+        int slot = cur_ns;
+        std::string cert = envpath + "/" + fname("cert", slot), key = envpath + "/" + fname("key", slot), tc = envpath + "/" + fname("tc", slot), crl = envpath + "/" + fname("crl", slot);
+        std::string saved_cert = pki::read_file(cert), saved_key = pki::read_file(key), saved_tc = pki::read_file(tc), saved_crl = pki::read_file(crl);
         switch (kind) {
         case 0: unlink(cert.c_str()); break;
         case 1: write_atomic(cert, "-----BEGIN CERTIFICATE-----\nthis is not base64 at all\n-----END CERTIFICATE-----\n"); break;
-        case 2: write_atomic(key, g_s.key[(envd.cert + 1) % NSETS]); break;
+        case 2: write_atomic(key, g_s.key[(envd.cert[slot] + 1) % NSETS]); break;
         case 3: unlink(cert.c_str()); mkdir(cert.c_str(), 0755); break;
         case 4: unlink(tc.c_str()); break;
         case 5: {
             // a valid CA followed by one caught in mid-write: no END line
-            std::string second = g_s.root[(envd.tc + 1) % NSETS]->cert_pem;
+            std::string second = g_s.root[(envd.tc[slot] + 1) % NSETS]->cert_pem;
             write_atomic(tc, saved_tc.substr(0, saved_tc.find_last_not_of('\n') + 1) + "\n" + second.substr(0, second.size() / 2));
             break;
         }
-        default: {
-            std::string second = g_s.root[(envd.tc + 2) % NSETS]->cert_pem;
+        case 6: {
+            std::string second = g_s.root[(envd.tc[slot] + 2) % NSETS]->cert_pem;
             size_t mid = second.size() / 2;
             second[mid] = '!'; second[mid + 1] = '*';
             write_atomic(tc, saved_tc.substr(0, saved_tc.find_last_not_of('\n') + 1) + "\n" + second);
             break;
         }
+        case 7: write_atomic(key, g_s.rsa_leaf->key_pem); break;
+        case 8: write_atomic(cert, g_s.rsa_leaf->cert_pem); break;
+        default: write_atomic(crl, "-----BEGIN X509 CRL-----\nnot a revocation list\n-----END X509 CRL-----\n"); break;
         }
         Ep s;
         s.tag = 2;
         struct xcm_attr_map *m = xcm_attr_map_create();
         xcm_attr_map_add_bool(m, "xcm.blocking", false);
+        if (kind == 9) xcm_attr_map_add_bool(m, "tls.check_crl", true);
         errno = 0;
         bool server = (a >> 4) % 2;
-        s.s = call(s, [&] { return server ? xcm_server_a("tls:127.0.0.1:0", m) : xcm_connect_a(obs_addr[0].c_str(), m); });
+        s.s = call(s, [&] { return server ? xcm_server_a("tls:127.0.0.1:0", m) : xcm_connect_a(obs_addr[cur_ns][0].c_str(), m); });
         int e = errno;
         xcm_attr_map_destroy(m);
         c.log("broken material (%s) -> %s: %s", KN[kind], server ? "xcm_server_a" : "xcm_connect_a", s.s ? "socket" : errname(e));
@@ -454,6 +771,7 @@ public:
         write_atomic(cert, saved_cert);
         write_atomic(key, saved_key);
         write_atomic(tc, saved_tc);
+        write_atomic(crl, saved_crl);
         drain_observers();
         VF_CHECK(!made, "C18: %s succeeded although %s", server ? "xcm_server_a" : "xcm_connect_a", KN[kind]);
         VF_CHECK(e == EPROTO, "C18: %s with broken material (%s) failed with %s (want EPROTO)", server ? "xcm_server_a" : "xcm_connect_a", KN[kind], errname(e));
